@@ -20,6 +20,16 @@ class PredictionType(str, Enum):
     MAX = "max"
     MEAN = "mean"
 
+    @classmethod
+    def _missing_(cls, value):
+        # the documentation spells the third type ``last_known``: accept both spellings
+        if isinstance(value, str):
+            normalized = value.replace("_", "-")
+            for member in cls:
+                if member.value == normalized:
+                    return member
+        return None
+
 
 class ConstantPredictionAlgorithm(
     PersonalizeAlgorithm[ConstantModel, IndividualParameters]
